@@ -104,7 +104,8 @@ def judge (fe : String) (r : Req) (implOut : String) : String × List String :=
      | none => ["tw-err"]
      | some t => [if t.chunked then "chunked" else if t.body.isSome then "cl-body" else "no-body"]) ++
     (if r.header.isEmpty then [] else ["hdr"]) ++
-    (match cause r with | some c => ["c:" ++ c] | none => ["wf"])
+    (match cause r with | some c => ["c:" ++ c] | none => ["wf"]) ++
+    (if oneReqHyp r then ["hyp"] else [])
   match guarOf fe r with
   | none => ("skip", "fe:any" :: shape)
   | some false => ("skip", ("fe:" ++ fe) :: "guar-miss" :: shape)
